@@ -58,6 +58,14 @@ REQUIRED = ["KV.C13.z_incremental", "KV.C13.normalised", "KV.C13.formula", "KV.C
             "KV.C13.termination_fails_mixed_orders", "KV.C13.formula_real", "KV.C13.normalised_real",
             "KV.C13.interp_nonpos", "KV.C13.z_incremental_real"]
 
+# Weight vectors with ADJACENT negative weights at every position pattern (command-line pre-processing of negative
+# numbers, MungeWeightArgs): pair at the end, pair in the middle, three in a row, leading pair, all negative.
+# Magnitudes are jittered per run; one tuple per pattern in every run.
+NEG_WEIGHT_PATTERNS = [
+    [1.4, -0.2, -0.2], [1.2, -0.3, -0.2, 0.3], [1.9, -0.3, -0.3, -0.3], [-0.2, -0.2, 1.4], [-0.5, -0.3, -0.2],
+    [0.0, -0.25, -0.25, 1.5],
+]
+
 # the concrete witness of theorem KV.C13.abort_witness, replayed on the real tool in every run
 WITNESS_CASE = {"kind": "witness", "comps": [("a\n", 2), ("b\n", 3)], "weights": [0.5, 0.5], "setting": (None, None)}
 
@@ -90,12 +98,14 @@ WEIGHT_CHOICES = {
 
 
 # ------------------------------------------------------------------------------------ case generation
-def gen_case(rng, kind=None):
+def gen_case(rng, kind=None, n_force=None, sizes_force=None):
     """A case = list of (corpus text, order) + weights + settings.  Kinds:
     single | same-order | same-corpus-mixed | nested-mixed | diff-mixed"""
     kind = kind or rng.choice(["single", "same-order", "same-order", "same-corpus-mixed", "nested-mixed",
                                "diff-mixed", "same-order", "disjoint", "disjoint", "deep"])
     n = 1 if kind == "single" else rng.choice([2, 2, 3])
+    if n_force:
+        n = n_force
     comps = []
     if kind == "deep":
         # order >= 4 models from different corpora over a shared vocabulary: components that back off two or more
@@ -117,6 +127,8 @@ def gen_case(rng, kind=None):
         # contexts (<s>, a hub word) with very many successors, smallest block sizes
         n = rng.choice([3, 3, 2])
         sizes = [rng.choice([4, 8, 12, 18, 26]) for _ in range(n)]
+        if sizes_force:
+            sizes, n = list(sizes_force), len(sizes_force)
         order = rng.choice([2, 3, 3, 4]) if sum(sizes) <= 36 else rng.choice([2, 3])
         shared_word = rng.random() < 0.3
         for i, sz in enumerate(sizes):
@@ -809,11 +821,32 @@ def run(ctx):
     found = found_bse
     try:
         quick = ctx.tier == "quick"
-        n = 20 if quick else 300
+        n = 16 if quick else 300
         cap_ctx = 120 if quick else 400
         # fixed coverage first: every kind once, then random kinds
         for bi in range(1 if quick else 4):
             found |= bigvocab_case(ctx, bins, os.path.join(wd, "big"), bi)
+        # union vocabulary about three times every component's, smallest blocks: the pass-2 RewindableStream must be sized
+        # from the UNION vocabulary (one fixed tuple per run for each of two block sizes)
+        for sizes, st in (((12, 12, 12), ("256b", "64b")), ((20, 19, 20), ("1K", "256b"))):
+            case = gen_case(ctx.rng, "disjoint", sizes_force=sizes)
+            case["comps"] = [(c[0], 3) for c in case["comps"]]        # equal orders: never the known mixed-order abort
+            case["setting"] = st
+            r = run_case(ctx, case, bins, dexe, os.path.join(wd, "case"), 60 if quick else cap_ctx)
+            found |= handle(ctx, case, r, bins, dexe, os.path.join(wd, "case"), cap_ctx)
+        for pat in NEG_WEIGHT_PATTERNS:
+            for attempt in range(4):
+                case = gen_case(ctx.rng, "same-order", n_force=len(pat))
+                case["kind"] = "neg-weights"
+                case["comps"] = [(c[0], min(c[1], 3)) + tuple(c[2:]) for c in case["comps"]]   # keep these cheap
+                case["weights"] = [round(w * ctx.rng.choice([1.0, 0.5, 1.25]), 3) if w < 0 else w for w in pat]
+                if len(pat) > 3:
+                    case["setting"] = ctx.rng.choice([(None, None), ("40M", "1M"), ("64K", "1K")])
+                r = run_case(ctx, case, bins, dexe, os.path.join(wd, "case"), 60 if quick else cap_ctx)
+                if r.status != "skip":
+                    break
+            ctx.hist("neg_weight_pattern", " ".join("-" if w < 0 else ("0" if w == 0 else "+") for w in pat))
+            found |= handle(ctx, case, r, bins, dexe, os.path.join(wd, "case"), cap_ctx)
         kinds = ["single", "disjoint", "deep", "same-order", "same-corpus-mixed", "nested-mixed", "diff-mixed",
                  "disjoint", "deep", "same-order", "disjoint"]
         if not quick:
